@@ -144,3 +144,16 @@ Definition multi_prog : sprog :=
            SNode (sw_outkey 1) 2 (spec_simple 0 "n2" 0 0 false false false true 3 true);
            SNode (sw_outkey 2) 3 (spec_simple 0 "n3" 0 0 true false false false 0 false)])
        (SNode sw_none 4 (spec_simple 1 "n4" 0 0 false false true false 0 false)).
+
+(* nested maps: a Stream-native map producer in two chunks under the output key 0 (the value
+   under that key is a map: in Go a map[string]string or a map[string]any) next to a string
+   under the key 1; then a Collect-native node behind the input key 0 (it reads the nested
+   map) next to a Transform-native map producer under the output key 3 (two levels of
+   nesting); a node that renders the whole map *)
+Definition nested_prog : sprog :=
+  SSeq (SPar [SNode (sw_outkey 0) 1 (spec_simple 2 "n1" 5 6 false true false false 1 false);
+              SNode (sw_outkey 1) 2 (spec_simple 0 "n2" 0 0 true false false false 0 false)])
+  (SSeq (SPar [SNode {| sw_pre := None; sw_in := Some 0%N; sw_out := Some 2%N; sw_post := None |} 3
+                     (spec_simple 1 "n3" 0 0 false false true false 0 false);
+               SNode (sw_outkey 3) 4 (spec_simple 3 "n4" 7 0 false false false true 2 false)])
+        (SNode sw_none 5 (spec_simple 1 "n5" 0 0 true false false false 0 false))).
